@@ -568,7 +568,10 @@ func Alphabet(side string, reduced bool) []Desc {
 						if !r.Mut {
 							continue
 						}
-						ids := prim
+						ids := prim[:1]
+						if tmpl == "/v1/replicas/{id}" && side == "C" {
+							ids = prim[:2] // the first and the second attached replica (the WO one in the RW+WO classes)
+						}
 						for _, id := range ids {
 							if r.Body == nil {
 								emit(Desc{side, method, tmpl, id, act, "none", "j"})
